@@ -52,13 +52,13 @@ Fixpoint loop (fuel : nat) (I : imap) : option imap :=
   | S f =>
     match pass I (map fst I) false with
     | None => None
-    | Some (I', true) => loop f I'
-    | Some (I', false) => Some I'
+    | Some (M', true) => loop f M'
+    | Some (M', false) => Some M'
     end
   end.
 
-Fixpoint fix_output (I : imap) : option (list (name * name)) :=
-  match I with
+Fixpoint fix_output (M : imap) : option (list (name * name)) :=
+  match M with
   | [] => Some []
   | (k, vs) :: r =>
     match vs, fix_output r with
@@ -76,7 +76,7 @@ Definition imm_doms (fuel : nat) (doms : imap) : ires :=
     (* a KeyError or exhausted fuel inside the passes *)
     match loop fuel I0 with
     | None => IKey
-    | Some I => match fix_output I with Some o => IOk o | None => IOne end
+    | Some M => match fix_output M with Some o => IOk o | None => IOne end
     end
   end.
 End Imm.
